@@ -164,6 +164,8 @@ mkunaryexpr(enum tokenkind op, struct expr *base)
 	case TMUL:
 		if (base->type->kind != TYPEPOINTER)
 			error(&tok.loc, "cannot dereference non-pointer");
+		if (base->type->base->kind == TYPEENUM && base->type->base->incomplete)
+			error(&tok.loc, "cannot dereference pointer to incomplete enum type");
 		if (base->kind == EXPRUNARY && base->op == TBAND) {
 			type = base->type->base;
 			expr = base->base;
